@@ -34,7 +34,45 @@ fn gen_case(rng: &mut Rng, small: bool) -> Case {
     let mut cfg = Config { encoding: enc.name().to_string(), strict: rng.chance(1, 4), send: true, adjust_charset: rng.chance(1, 3), ..Default::default() };
     gen::observer_config(rng, &mut cfg);
     let rawb = rng.chance(1, 8);
-    let input = gen::soup(rng, if small { 5 } else { 25 }, SoupKind::Any, rawb);
+    let mut input = gen::soup(rng, if small { 5 } else { 25 }, SoupKind::Any, rawb);
+    match rng.below(8) {
+        0 => {
+            // structured document + generated selectors (structural pseudo-classes over standard and non-standard names)
+            let foreign = rng.bool();
+            input = crate::structgen::gen_doc(rng, &crate::structgen::Opts { foreign, max_nodes: if small { 8 } else { 24 }, ..Default::default() }).bytes;
+            for _ in 0..rng.range(1, 3) {
+                cfg.el.push(engine::ElH { selector: crate::selgen::gen_list(rng).css(), element: true, end_tag: rng.bool(), ..Default::default() });
+            }
+        }
+        1 => {
+            // many DISTINCT non-standard sibling names under per-type counting selectors: anything keyed by name in a
+            // randomly seeded hash container shows up as run-to-run or thread-to-thread variation
+            let mut v = String::from("<div>");
+            let kinds = rng.range(6, 40);
+            for _ in 0..rng.range(10, if small { 30 } else { 120 }) {
+                let k = rng.below(kinds);
+                let name = match k % 4 {
+                    0 => format!("x-el{k}"),
+                    1 => format!("cu{k}stom"),
+                    2 => format!("averyveryverylongname{k}"),
+                    _ => format!("n{k}"),
+                };
+                if rng.chance(1, 6) {
+                    v.push_str(&format!("<{name} a{k}=v>t"));
+                } else {
+                    v.push_str(&format!("<{name} a{k}=v>t</{name}>"));
+                }
+            }
+            v.push_str("</div>");
+            input = v.into_bytes();
+            for sel in ["*:nth-of-type(2)", ":first-of-type", "div > :nth-of-type(2n+1)", "*:nth-of-type(3) *", ":not(:nth-of-type(1))"] {
+                if rng.bool() {
+                    cfg.el.push(engine::ElH { selector: sel.into(), element: true, text: rng.chance(1, 4), ..Default::default() });
+                }
+            }
+        }
+        _ => {}
+    }
     if rng.bool() {
         if let Ok(dry) = engine::run(&cfg, &input, &[]) {
             mutgen::script_from_dry_run(rng, &mut cfg, &dry, 3);
@@ -338,7 +376,7 @@ impl Prop for C18 {
         "C18"
     }
     fn rule(&self) -> String {
-        "groups of 2-6 generated rewrites (send handler types; observers and mutating scripts; injected failures and memory limits; bail-out handlers): each is run twice sequentially (must be identical) and followed on the same thread by fixed probe rewrites that must equal their run on a fresh thread (nothing is left behind, also after a failure inside a handler on a meta charset element), then all of them concurrently on their own threads released by a barrier with random yields (each must equal its sequential run), then as a send::HtmlRewriter moved to a freshly spawned thread for every write() and for end(); concurrent Selector parsing on 4 threads; case-twin selectors (differing only in the ASCII case of a class / id / attribute value) run after each other and concurrently must stay distinct; C API last-error ping-pong choreographed with barriers; the same workload runs under ThreadSanitizer (any report fails the run) and, small, under Miri's data-race detector; non-trivial: >= 2 threads were inside lol-html at the same time (in-flight counter); distinct = hash(group)".into()
+        "groups of 2-6 generated rewrites (send handler types; tag soup, structured documents with generated selectors, and sibling runs over 6-40 distinct non-standard element names under per-type counting selectors; observers and mutating scripts; injected failures and memory limits; bail-out handlers): each is run twice sequentially (must be identical) and followed on the same thread by fixed probe rewrites that must equal their run on a fresh thread (nothing is left behind, also after a failure inside a handler on a meta charset element), then all of them concurrently on their own threads released by a barrier with random yields (each must equal its sequential run), then as a send::HtmlRewriter moved to a freshly spawned thread for every write() and for end(); concurrent Selector parsing on 4 threads; case-twin selectors (differing only in the ASCII case of a class / id / attribute value) run after each other and concurrently must stay distinct; C API last-error ping-pong choreographed with barriers; the same workload runs under ThreadSanitizer (any report fails the run) and, small, under Miri's data-race detector; non-trivial: >= 2 threads were inside lol-html at the same time (in-flight counter); distinct = hash(group)".into()
     }
     fn assumptions(&self) -> Vec<String> {
         vec!["a future global guarded by a lock that does not change results is invisible to this family".into()]
